@@ -40,7 +40,8 @@ ASSUMPTIONS = [
 REQUIRED = ['application_failed_on_a_dispatched_request', 'status_400', 'status_505', 'status_500', 'status_200_dispatched', 'closed_without_response', 'waited_no_response',
             'exception_event_seen', 'disconnect_mid_message', 'disconnect_after_response', 'canary_answered', 'residue_scans',
             'weakref_checks', 'responses_parsed_by_reference', 'responses_crosschecked_http_client', 'reject_class_complete',
-            'truncation_cases', 'multi_read_cases', 'ref_parser_selftest_checks', 'announced_close_followed_by_close', 'hostile_message_asked_with_HEAD']
+            'truncation_cases', 'multi_read_cases', 'ref_parser_selftest_checks', 'announced_close_followed_by_close', 'hostile_message_asked_with_HEAD',
+            'message_cut_inside_its_trailer_section']
 REQUIRED_OBLIGATIONS = ['INCOMPLETE_MESSAGE_WAITS', 'LOOP_SURVIVES', 'ONE_VALID_RESPONSE_PER_READ', 'CLOSE_FOLLOWS_ANNOUNCEMENT', 'REJECTED_NOT_DISPATCHED',
                         'ERROR_STATUS_FOR_REJECTED', 'NO_STATE_AFTER_DISCONNECT', 'WELL_FORMED_DISPATCHED', 'EXCEPTION_ANSWERED_OR_CLOSED',
                         'DISPATCHED_HEADERS_CLEAN', 'BARE_CLOSE_ONLY_FOR_TLS']
@@ -57,6 +58,8 @@ CANARY = b'GET /canary HTTP/1.1\r\nHost: canary\r\n\r\n'
 GOOD = b'GET /ok?x=1 HTTP/1.1\r\nHost: h\r\nX-A: 1\r\n\r\n'
 GOOD_POST = b'POST /p HTTP/1.1\r\nHost: h\r\nContent-Length: 5\r\n\r\nhello'
 GOOD_CHUNKED = b'POST /c HTTP/1.1\r\nHost: h\r\nTransfer-Encoding: chunked\r\n\r\n3\r\nabc\r\n2\r\nde\r\n0\r\n\r\n'
+# ... with chunk extensions and a trailer section of two fields after the last chunk (RFC 7230 4.1.2): the message ends with the empty line after them
+GOOD_TRAILERS = b'POST /ct HTTP/1.1\r\nHost: h\r\nTransfer-Encoding: chunked\r\nTrailer: X-Sum, X-Len\r\n\r\n3;e=1\r\nabc\r\n0;last\r\nX-Sum: 9\r\nX-Len: 3\r\n\r\n'
 import gzip as _gzip  # noqa: E402
 _GZ = _gzip.compress(b''.join(b'line %03d: the quick brown fox jumps over the lazy dog\n' % i for i in range(40)), mtime=0)
 # a well-compressible gzip body: Content-Length counts the compressed bytes on the wire, not what they decompress to
@@ -450,6 +453,8 @@ def evaluate(b, case):
         b.reached('multi_read_cases')
     if case.get('truncated'):
         b.reached('truncation_cases')
+        if case.get('incomplete_wellformed') and b'\r\n0;last\r\nX-' in data:
+            b.reached('message_cut_inside_its_trailer_section')
     if case.get('expect') == 'reject' and complete:
         b.reached('reject_class_complete')
     path = exit_path(obs)
@@ -688,7 +693,7 @@ def corpus_cases():
     cases = []
     b_head_seen = []
     H11_ = b'GET / HTTP/1.1\r\nHost: h\r\n\r\n'
-    for good, tag in ((GOOD, 'get'), (GOOD_POST, 'post'), (GOOD_CHUNKED, 'chunked'), (GOOD_GZIP, 'gzip')):
+    for good, tag in ((GOOD, 'get'), (GOOD_POST, 'post'), (GOOD_CHUNKED, 'chunked'), (GOOD_TRAILERS, 'trailers'), (GOOD_GZIP, 'gzip')):
         cases.append(make_case('well-formed', 'accept', good, good))
         cases.append(make_case('well-formed', 'accept', good, good, disconnect_after=None))
         # the application fails on what it is handed: answered for exactly once (in one read, in two reads, kept open)
